@@ -24,6 +24,7 @@ def run(m: Model, r: Report, tier: str) -> None:
     r.rule("R4", "the session only changes to a sub-function of DiagnosticSessionControl that the active session offers (or back to 1)", floor=4)
     r.rule("R5", "request parsing falls back to RawRequest for every Exception; the connection loop answers each request with response.pdu", floor=3)
     r.rule("R7", "the client's matcher, evaluated abstractly on (parsed request, emitted response) with equal echoed bytes, never refuses", floor=8)
+    r.rule("R9", "random integers the server puts into a response fit the width of the field they are packed into (otherwise struct.pack / to_bytes raises)", floor=3)
     r.rule("R8", "random payloads respect the length bounds their callers rely on (min_len <= length <= max_len for every draw)", floor=2)
     r.rule("R6", "the codec obligations (W∘R byte identity, no raising serialiser) hold for every class the server can emit", floor=8)
 
@@ -239,6 +240,78 @@ def run(m: Model, r: Report, tier: str) -> None:
     if n_idx < 1:
         raise AnalysisError("no request.pdu[k] access found in the server responders (expected the sub-function lookup)")
 
+    # ---------------------------------------------------------------- R9
+    import re as _re
+    from sa.codec import normalised_origin
+    from sa import transport_rules as _trb
+
+    def _width(origin: str) -> int | None:
+        mt = _re.fullmatch(r"bits<pdu\[[^\]]+\]\.(\d+)\.\.(\d+)>", origin)
+        if mt:
+            return int(mt.group(1)) - int(mt.group(2)) + 1
+        mt = _re.fullmatch(r"from_bytes\(pdu\[(?:(\w+)\+)?(\d+):(?:(\w+)\+)?(\d+)\]\)", origin)
+        if mt and mt.group(1) == mt.group(3):
+            return 8 * (int(mt.group(4)) - int(mt.group(2)))
+        return None
+
+    def _range(f: FuncInfo, e: ast.expr, depth: int = 0) -> tuple[int, int] | None:
+        """Value range of an expression built from randint draws (None: not a random integer)."""
+        if isinstance(e, ast.Call) and isinstance(e.func, ast.Attribute) and e.func.attr == "randint" and len(e.args) == 2:
+            lo, hi = m.try_fold(f.module, e.args[0]), m.try_fold(f.module, e.args[1])
+            return (lo, hi) if isinstance(lo, int) and isinstance(hi, int) else None
+        if isinstance(e, ast.BinOp) and isinstance(e.op, ast.BitAnd):
+            a, b = _range(f, e.left, depth), _range(f, e.right, depth)
+            if a and b:
+                return (0, min(a[1], b[1]))
+            return None
+        if isinstance(e, ast.Name) and depth < 3:
+            defs_ = [n.value for n in walk_no_nested(f.node) if isinstance(n, ast.Assign) and isinstance(n.targets[0], ast.Name) and n.targets[0].id == e.id]
+            rs_ = [_range(f, d, depth + 1) for d in defs_]
+            if rs_ and all(rs_):
+                return (min(x[0] for x in rs_), max(x[1] for x in rs_))
+        return None
+
+    n_r9 = 0
+    for f in m.require_class(f"{SRV}.RandomUDSServer").methods.values():
+        for n in walk_no_nested(f.node):
+            if not isinstance(n, ast.Call):
+                continue
+            callee = m.resolve_expr(f.module, n.func, f.cls) if isinstance(n.func, (ast.Name, ast.Attribute)) else None
+            if not (isinstance(callee, ClassInfo) and any(k.name == "UDSResponse" for k in m.mro(callee))):
+                continue
+            bound = _trb.bind_call(m, f, n)
+            if not bound:
+                continue
+            fields_ = {}
+            for pth in ca.analyse(callee).accepted:
+                for fname, v in (pth.fields or {}).items():
+                    fields_.setdefault(fname, set()).add(normalised_origin(v))
+            for par, arg in bound.items():
+                targets = []            # (description, expression, origin)
+                origins = fields_.get(par, set())
+                if isinstance(arg, ast.Name):
+                    dict_stores = [(t.slice, nn.value) for nn in walk_no_nested(f.node) if isinstance(nn, ast.Assign) for t in nn.targets
+                                   if isinstance(t, ast.Subscript) and isinstance(t.value, ast.Name) and t.value.id == arg.id]
+                    for o in origins:
+                        md = _re.fullmatch(r"dict\[(.+?): (.+?) for .*\]", o)
+                        if md and dict_stores:
+                            for ks, vs in dict_stores:
+                                targets.append((f"key of {par}", ks, md.group(1)))
+                                targets.append((f"value of {par}", vs, md.group(2)))
+                for o in origins:
+                    targets.append((par, arg, o))
+                for what, expr, o in targets:
+                    rg = _range(f, expr)
+                    w = _width(o)
+                    if rg is None or w is None:
+                        continue
+                    n_r9 += 1
+                    r.check(0 <= rg[0] and rg[1] < 2 ** w, "R9", f"{f.qualname}#{callee.name}.{what}",
+                            f"{what} of {callee.name} is drawn from [{rg[0]}, {rg[1]}] but is packed into {w} bits: the serialiser raises for values outside and the "
+                            "server drops the connection", loc=f"{f.module.relpath}:{n.lineno}")
+    if n_r9 < 3:
+        raise AnalysisError(f"only {n_r9} random integer response fields found in RandomUDSServer")
+
     # ---------------------------------------------------------------- R8
     from sa import miniterp
     rp = m.require_function(f"{SRV}.RNG.random_payload")
@@ -286,6 +359,13 @@ def run(m: Model, r: Report, tier: str) -> None:
             elif ast.unparse(n.value).startswith("await self.server.respond("):
                 roles[n.targets[0].id] = "RESP"
     src = m.mtext(hr, None, roles)
+    rets_pdu = [n for n in walk_no_nested(hr.node) if isinstance(n, ast.Return) and n.value is not None and "RESP.pdu" in m.mtext(hr, n.value, roles)]
+    if len(rets_pdu) == 1:
+        from sa.util import path_condition, truth_table
+        rv = next((k for k, v in roles.items() if v == "RESP"), None)
+        badp = truth_table(path_condition(hr.node, rets_pdu[0]), {rv: [None, "R"]}, lambda a: a[rv] is not None) if rv else ["?"]
+        r.check(not badp, "R5", f"{hr.qualname}#serialises-iff-response", f"response.pdu is returned on {badp}: it must be returned exactly when the server produced a response "
+                "(None.pdu raises and the connection is dropped)", loc=hr.loc)
     r.check("REQ = service.UDSRequest.parse_dynamic(request_pdu)" in src and "RESP = await self.server.respond(REQ)" in src and "return (RESP.pdu," in src, "R5",
             f"{hr.qualname}#pipeline", "handle_request must parse dynamically, ask the server and serialise its response", loc=hr.loc)
     hc = m.require_function(f"{SRV}.TCPUDSServerTransport.handle_client")
